@@ -374,11 +374,6 @@ def operator_quirk(spec, exp, got):
         seed_like = exp if isinstance(exp, dict) else {}
         if c02.classify(spec, seed_like):
             return True
-        pa = spec.get('$pullAll') if isinstance(spec, dict) else None
-        if isinstance(pa, dict) and any(
-                '.' in p and refupdate.get_at(seed_like, p.split('.')[:-1])[0] == 'missing'
-                for p in pa):
-            return True
     except Exception:  # pylint: disable=broad-except
         return False
     return False
